@@ -69,6 +69,7 @@
 	global %1_dispatched, %1_mbinit, %1_dispatch_init
 %endif
 	section .data
+	align 8		; the binding is read and replaced with single 8-byte accesses
 	%1_dispatched:
 		mbin_def_ptr	%1_mbinit
 
